@@ -473,6 +473,7 @@ package flags
 //@   loop 3 invariant ncalls(Command.fillParseState) > old(ncalls(Command.fillParseState)) && s.command == callarg(Command.fillParseState, ncalls(Command.fillParseState) - 1, 0)
 //@   loop 3 invariant s.err == nil ==> nfails(convert) == old(nfails(convert))
 //@   loop 3 invariant is(s.err, *Error) ==> as(s.err, *Error) != nil
+//@   loop 3 invariant[C04] s.err == loopentry(s.err) || isTyped(s.err, ErrMarshal) || (is(s.err, *Error) && exists(k, loopentry(ncalls(Option.clearDefault)), ncalls(Option.clearDefault), s.err == callres(Option.clearDefault, k, 0)))
 //@   ensures[C09] ncalls(Commander.Execute) + ncalls(Parser.CommandHandler) <= e0 + h0 + 1
 //@   ensures[C09] compl || p.internalError != nil ==> ncalls(Commander.Execute) == e0 && ncalls(Parser.CommandHandler) == h0
 //@   ensures[C09] ncalls(Commander.Execute) == e0 + 1 ==> err == callres(Commander.Execute, e0, 0) && (err == nil ==> same(rest, callarg(Commander.Execute, e0, 1)))
